@@ -454,6 +454,16 @@ func isEntryName(n string) bool {
 	return ast.IsExported(n) || n == "monitor" || n == "notify"
 }
 
+// funcDeclRecv: the method named `name` (any receiver)
+func funcDeclRecv(f *ast.File, name string) *ast.FuncDecl {
+	for _, d := range f.Decls {
+		if fd, ok := d.(*ast.FuncDecl); ok && fd.Recv != nil && fd.Name.Name == name && fd.Body != nil {
+			return fd
+		}
+	}
+	return nil
+}
+
 func extractLocks(repo string, o *out) {
 	files := []string{"grpcgcp/gcp_balancer.go", "grpcgcp/gcp_picker.go", "grpcgcp/gcp_multiendpoint.go",
 		"grpcgcp/gcp_interceptor.go", "grpcgcp/multiendpoint/multiendpoint.go"}
@@ -746,6 +756,52 @@ func extractLocks(repo string, o *out) {
 		o.lines = append(o.lines, fmt.Sprintf("def condBroadcasts : Nat := %d", other))
 		o.lines = append(o.lines, fmt.Sprintf("def condBroadcastsAfterUnlock : Nat := %d", after))
 		_ = total
+	}
+	// pool monitor (C15): one iteration of monitoredConn.monitor reads the connection state once and both
+	// notifies and waits with that same value (`s := conn.GetState(); notify(s); WaitForStateChange(ctx, s)`)
+	{
+		af := parse(filepath.Join(repo, "grpcgcp/gcp_multiendpoint.go"))
+		ok := false
+		if fd := funcDeclRecv(af, "monitor"); fd != nil {
+			reads, v := 0, ""
+			notifyOK, waitOK := false, false
+			ast.Inspect(fd.Body, func(n ast.Node) bool {
+				switch x := n.(type) {
+				case *ast.AssignStmt:
+					if len(x.Lhs) == 1 && len(x.Rhs) == 1 {
+						if ce, isCall := x.Rhs[0].(*ast.CallExpr); isCall {
+							if se, isSel := ce.Fun.(*ast.SelectorExpr); isSel && se.Sel.Name == "GetState" {
+								if id, isId := x.Lhs[0].(*ast.Ident); isId {
+									v = id.Name
+								}
+							}
+						}
+					}
+				case *ast.CallExpr:
+					if se, isSel := x.Fun.(*ast.SelectorExpr); isSel {
+						switch se.Sel.Name {
+						case "GetState":
+							reads++
+						case "notify":
+							if len(x.Args) == 1 {
+								if id, isId := x.Args[0].(*ast.Ident); isId && id.Name == v && v != "" {
+									notifyOK = true
+								}
+							}
+						case "WaitForStateChange":
+							if len(x.Args) == 2 {
+								if id, isId := x.Args[1].(*ast.Ident); isId && id.Name == v && v != "" {
+									waitOK = true
+								}
+							}
+						}
+					}
+				}
+				return true
+			})
+			ok = reads == 1 && notifyOK && waitOK
+		}
+		o.lines = append(o.lines, fmt.Sprintf("def monitorWaitsOnNotifiedState : Bool := %v", ok))
 	}
 	// round-robin cursor (C09): rrRefId is advanced only by `atomic.AddUint32(&….rrRefId, 1)`
 	{
